@@ -28,9 +28,10 @@ FillFew == {F1, F3, F5, R1, R2}
 
 \* flow values "without pre-existing aliasing": every value has its own data list and context
 X(j) == [d |-> <<j>>,
-         c |-> CASE j % 3 = 1 -> [a |-> 1]
-                 [] j % 3 = 2 -> [a |-> 2, n |-> [b |-> 1]]
-                 [] OTHER -> <<>>]
+         \* a nested dictionary, an empty context (a value that looks like "no context"), a flat one
+         c |-> CASE j % 3 = 1 -> [a |-> 1, n |-> [b |-> 1]]
+                 [] j % 3 = 2 -> <<>>
+                 [] OTHER -> [a |-> 2]]
 Flow(n) == [j \in 1..n |-> X(j)]
 
 BufAll == {1, 2, None}
